@@ -32,10 +32,11 @@ def plan(tier, seed):
 
 def both_insert_same_position(decisions):
     for d in decisions:
-        if d.get("action") in ("local_then_remote", "remote_then_local"):
-            return True
         la = {e["key"] for e in (d.get("local_diff") or []) if e.get("op") == "addrange"}
         ra = {e["key"] for e in (d.get("remote_diff") or []) if e.get("op") == "addrange"}
+        if d.get("action") in ("local_then_remote", "remote_then_local") and la and ra:
+            # an ordered combination counts as the exempted case only if BOTH sides actually insert something there
+            return True
         if la & ra:
             return True
         if d.get("similar_insert") is not None:
@@ -215,6 +216,41 @@ def run_shard(spec):
                         continue
                     col.eval()
                     check_symmetry(col, gmerge, b, l, rr, "generic", "generic:" + name, {"b": b, "l": l, "r": rr, "generic": True})
+    # line-wise text merges, exhaustively: a 3-line text; each side deletes / rewrites beyond recognition / extends /
+    # prefixes one line or inserts a line - every ordered pair of such edits, the text as a document of its own and as a
+    # member of an object (shard 0 only: 2 x 16 x 16 triples)
+    if i == 0:
+        lines = ["alpha one\n", "beta two\n", "gamma three\n"]
+        edits = [None]
+        for k_ in range(3):
+            edits += [("del", k_), ("rewrite", k_), ("extend", k_), ("prefix", k_), ("insert", k_)]
+        def apply_edit(e):
+            ls = list(lines)
+            if e is None:
+                return "".join(ls)
+            how, k_ = e
+            if how == "del":
+                del ls[k_]
+            elif how == "rewrite":
+                ls[k_] = "SOMETHING ELSE %d\n" % k_
+            elif how == "extend":
+                ls[k_] = ls[k_].rstrip("\n") + " more\n"
+            elif how == "prefix":
+                ls[k_] = "# " + ls[k_]
+            else:
+                ls.insert(k_, "inserted %d\n" % k_)
+            return "".join(ls)
+        for wrap in (lambda t: t, lambda t: {"s": t, "n": 1}):
+            for e1 in edits:
+                for e2 in edits:
+                    col.eval()
+                    b_, l_, r_ = wrap("".join(lines)), wrap(apply_edit(e1)), wrap(apply_edit(e2))
+                    both_insert = e1 is not None and e2 is not None and e1[0] == "insert" and e2[0] == "insert" and e1[1] == e2[1]
+                    check_symmetry(col, gmerge, b_, l_, r_, "generic", "generic:text-lines", {"b": b_, "l": l_, "r": r_, "generic": True}, gen_excluded=both_insert)
+                    col.nt_enum()
+            for e1 in edits:
+                col.eval()
+                check_laws(col, gmerge, wrap("".join(lines)), wrap(apply_edit(e1)), "generic", "generic:text-lines", {"b": wrap("".join(lines)), "x": wrap(apply_edit(e1)), "generic": True})
     # long documents (257-700 items / keys / lines): laws, and symmetry of two independent edit scripts of one base
     from .c02 import long_base, long_edit
     for _ in range(12 if spec["list_n"] < 3 else 150):
